@@ -16,7 +16,9 @@ RULE = ("classes over the schema-mappable fragment (Integer/Number/Float with bo
         "keys; nested classes by $ref incl. one class referenced twice and two classes under one name; StructureReference; "
         "AllOf/AnyOf/OneOf/NotField; Optional and its neighbouring non-Optional shapes; defaults; field-wrapper classes; 8% with "
         "Anything/NoneField; 1200 classes quick / 16000 thorough; 10% of them additionally with a key-renaming "
-        "_serialization_mapper = oracle-only stream, no model correspondence), up to 3 valid "
+        "_serialization_mapper: ONE dict mapper on the top-level class that renames its own keys to strings = modelled "
+        "(Sch.classSchemaM / renameDoc: model schema and model serialization compared with the real ones); case converters, "
+        "'<field>._mapper' entries, mappers on nested classes = oracle-only stream), up to 3 valid "
         "instances per class plus instances poked into the known regions (bool in a numeric field, None for a defaulted "
         "field), up to 24 boundary documents per class (every bound of every top-level field +-1, missing/extra key, wrong "
         "JSON type, single-point corruptions). Correspondence: model schema/definitions == real (canonical), Lean "
@@ -26,7 +28,7 @@ RULE = ("classes over the schema-mappable fragment (Integer/Number/Float with bo
         "sub-fragment every admitted boundary document is accepted by the real Deserializer. non-trivial = constraint, "
         "nesting or more than one field; distinct by case hash")
 ASSUMPTIONS = [
-    "mapper-free classes in the Lean model (key-renaming serialization mappers are exercised by the oracle-only stream only)",
+    "key-renaming serialization mappers are in the Lean model only as one string-valued key map on the top-level class; everything else about mappers is exercised by the oracle-only stream",
     "Enum serialization_by_value, DecimalNumber, date/time fields, custom to_json_schema are not in the model",
     "regular expressions are an oracle: re.match answers for typedpy, re.search answers for the validator, supplied per case; the theorems assume match => search (and search => match for start-anchored patterns)",
     "a field-wrapper class (one required field, no additional properties) is paired with compact=True serialization at top level, as the documentation does",
